@@ -11,6 +11,7 @@ import Arca.Driver.Foreach
 import Arca.Driver.EngineApi
 import Arca.Driver.Input
 import Arca.Driver.Gate
+import Arca.Driver.Dgraph
 
 open Lean (Json)
 open Arca.Driver
@@ -57,4 +58,5 @@ def main (args : List String) : IO UInt32 := do
   | "engineapi" :: rest => cmdEngineApi rest; return 0
   | "input" :: rest => cmdInput rest; return 0
   | "gate" :: rest => cmdGate rest; return 0
+  | "dgraph" :: rest => cmdDgraph rest; return 0
   | _ => IO.eprintln "usage: arcadrv loop [errCap]"; return 2
